@@ -223,7 +223,11 @@ func (tx *Transaction) Commit(ctx context.Context, scope *ReferenceScope, expr p
 
 // writeEndingLineBreak ends a table file with the line break of that file, in the encoding of that file.
 func writeEndingLineBreak(fp io.Writer, fileInfo *FileInfo) error {
-	enc := fileInfo.Encoding
+	return writeLineBreakInEncoding(fp, fileInfo.LineBreak, fileInfo.Encoding)
+}
+
+// writeLineBreakInEncoding writes a line break that follows encoded text, in the encoding of that text.
+func writeLineBreakInEncoding(fp io.Writer, lineBreak text.LineBreak, enc text.Encoding) error {
 	switch enc {
 	case text.UTF8M:
 		// The byte order mark belongs to the beginning of the file only.
@@ -237,7 +241,7 @@ func writeEndingLineBreak(fp io.Writer, fileInfo *FileInfo) error {
 	if err != nil {
 		return err
 	}
-	_, err = w.Write([]byte(fileInfo.LineBreak.Value()))
+	_, err = w.Write([]byte(lineBreak.Value()))
 	return err
 }
 
